@@ -268,7 +268,7 @@ def selftest():
     """Negative control on the model: with each deviation of the pinned tree switched on, TLC must report NoCrash."""
     ok = True
     for dev, entries in [("HelloEndsAfterRandom", ["dtls_clienthello", "dtls_client"]), ("SetExtensionSlicesPast", ["rtp"]),
-                         ("EmptyTurnData", ["turn_udp"]), ("TurnTcpFrameLength", ["turn_tcp"]), ("MidPlusOneOverflows", ["pc_sdp"]),
+                         ("EmptyTurnData", ["turn_udp"]), ("TurnTcpFrameLength", ["turn_tcp"]), ("MidPlusOneOverflows", ["pc_sdp"]), ("PostHvrSeqOverflows", ["dtls_client"]),
                          ("StapAAmplifies", ["rtp_transport"]), ("MediaSectionsUnbounded", ["pc_sdp"])]:
         cfg = os.path.join(vlib.SPEC, "MC_Inputs_selftest.gen.cfg")
         write_cfg(cfg, entries, ALL_MUTS, 1, emit=False, deviations=[dev])
